@@ -39,6 +39,11 @@ package types
 // ([]byte, or sql.RawBytes for the column types the scanner has no case for: MEDIUMTEXT, LONGTEXT,
 // ENUM, SET ...): encoding/json writes a byte slice as base64, which the decoder of a text column
 // keeps as the column's text.
+// GetActualValue dereferences a pointer value (reflect.TypeOf(v).Kind() == reflect.Ptr); trusted for what
+// is a fact of the language: a byte slice or a string is not a pointer and is handed back as it is.
+//@ func (*ColumnImage).GetActualValue
+//@   trusted
+//@   ensures c.Value != nil && (isT(c.Value, []byte) || isT(c.Value, sql.RawBytes) || isT(c.Value, string)) ==> result == c.Value
 //@ func (*ColumnImage).MarshalJSON
 //@   prop C08 C01
 //@   requires c != nil
